@@ -382,7 +382,7 @@ pub fn probe_end_of_tape_success() -> Result<bool, String> {
 
 pub fn run(run: &mut Run) {
     let t = run.tier;
-    run.explore("request-sequences", t.pick(6_000, 400_000), case_strategy, check);
+    run.explore("request-sequences", t.pick(6_000, 200_000), case_strategy, check);
 }
 
 pub fn replay(run: &mut Run, phase: &str, case: &serde_json::Value) -> Result<(), String> {
